@@ -58,6 +58,27 @@ chk("C19", "exploration")
 chk("C20", "exploration", wq=4, wt=8)
 
 
+# counters that a complete run must have moved: a monitor whose hook was never reached has decided nothing
+# ("observed nothing" is inconclusive, never "held"). All of them are in the hundreds or more per quick run.
+REQUIRED = {
+    "C01": ["histories_on_real_driver", "histories_with_wide_rule_ids", "fault_executions"],
+    "C04": ["refused_removals", "fault_plans", "sessions_established", "negative_responses"],
+    "C05": ["refused_removals", "fault_plans", "sessions_established"],
+    "C06": ["duplicates_in_window", "sends_after_expiry", "tx_events_on_an_id_shared_with_a_retained_request"],
+    "C07": ["hostile_datagrams", "unaddressed_sessions_of_the_sender_checked"],
+    "C09": ["retransmissions", "answered", "abandoned", "real_timer_requests",
+            "stale_expiries_observed(answer_handled_before_the_queued_expiry)"],
+    "C10": ["kernel_reports", "usage_report_ies", "refused_urr_removals", "history_report_requests"],
+    "C11": ["usage_report_ies", "refused_removals", "concurrent_operations", "report_requests_given_up_after_all_retries(steps)"],
+    "C12": ["termination_reports", "immediate_reports", "refused_removals"],
+    "C13": ["gtpu_packets", "buffer_notifications", "release_transitions_with_packets", "refused_release_transitions_with_packets"],
+    "C14": ["writer_datagrams"],
+    "C15": ["ticks", "netlink_batches", "removals_refused_by_the_kernel", "real_ticks_observed"],
+    "C17": ["events_injected", "report_requests_seen", "accounted_reports"],
+    "C18": ["requests", "report_requests_seen"],
+}
+
+
 def bdir():
     h = hashlib.sha1(os.path.abspath(REPO).encode()).hexdigest()[:8]
     d = os.path.join(VERIF, "build", h)
@@ -460,6 +481,10 @@ def main():
         inconclusive_reasons.append("harness-race:" + ",".join(harness_races[:3]))
     if only is None and (merged["evaluations"] < cfg["floor"] or distinct < 2):
         inconclusive_reasons.append("observed-too-little(evals=%d,distinct=%d)" % (merged["evaluations"], distinct))
+    if only is None and merged["complete"] and not timed_out:
+        idle = [k for k in REQUIRED.get(cid, []) if int(merged["counters"].get(k, 0)) <= 0]
+        if idle:
+            inconclusive_reasons.append("monitor-never-reached:" + ",".join(idle))
     if merged["inconclusive"]:
         merged["counters"]["inconclusive_cases"] = len(merged["inconclusive"])
         # individual inconclusive cases only make the run inconclusive when they dominate
@@ -477,8 +502,11 @@ def main():
     ev = dict(property_id=cid, tier=tier, seed=SEED, level=cfg["level"], coverage=cov,
               assumptions=merged["assumptions"], wall_s=round(wall, 2), violations=len(unlisted))
     if only is None:
-        os.makedirs(os.path.join(VERIF, "evidence"), exist_ok=True)
-        with open(os.path.join(VERIF, "evidence", cid + ".json"), "w") as fh:
+        # evidence/ describes the tree the checks are registered for (/repo); a run against another tree
+        # (VERIF_REPO: mutants, seeded and neutral changes) leaves its evidence next to its build output
+        evdir = os.path.join(VERIF, "evidence") if os.path.abspath(REPO) == "/repo" else os.path.join(bdir(), "evidence")
+        os.makedirs(evdir, exist_ok=True)
+        with open(os.path.join(evdir, cid + ".json"), "w") as fh:
             json.dump(ev, fh, indent=1, sort_keys=False)
             fh.write("\n")
 
